@@ -45,5 +45,6 @@ example : encode [[120, 92], [121, 45, 122]] ≠ encode [[120, 45, 121, 92], [12
     control skeleton the model was written against (`Proofs/Skeletons.lean`, one `rfl` per function
     or clause; DESIGN.md §11.6a) -/
 theorem metric_skeletons : Skeletons.MetricShape := Skeletons.metric_shape
+theorem f_metrics_metric_skeletons : Skeletons.F_metrics_metricShape := Skeletons.f_metrics_metric_shape
 
 end MtailVerif.C08
